@@ -1178,7 +1178,7 @@ func c03R10(ic *IC, r *Report) {
 		if fi == nil || fi.Decl.Body == nil {
 			continue
 		}
-		exact := len(callsIn(info, fi.Decl.Body, true, "go/constant.Sign")) > 0
+		exact := len(callsIn(info, fi.Decl.Body, true, "go/constant.Sign", "go/constant.Compare")) > 0
 		var machine []string
 		for _, c := range allCalls(fi.Decl.Body) {
 			g, ok := calleeOf(info, c).(*types.Func)
@@ -1197,7 +1197,7 @@ func c03R10(ic *IC, r *Report) {
 			}
 		}
 		r.Check(exact && len(machine) == 0, "R03.10", funcName(fi.Decl)+"/zero-divisor-decided-exactly", ic.pos(fi.Decl.Pos()), "the zero test uses constant.Sign on the exact value",
-			funcName(fi.Decl)+", whose truth makes the type checker report a division by zero, "+map[bool]string{true: "converts the constant to a machine number (" + strings.Join(machine, ", ") + ")", false: "does not use constant.Sign"}[len(machine) > 0]+": a non-zero divisor below the smallest float64 underflows to 0 and the valid constant expression 1e-390 / 1e-400 is rejected")
+			funcName(fi.Decl)+", whose truth makes the type checker report a division by zero, "+map[bool]string{true: "converts the constant to a machine number (" + strings.Join(machine, ", ") + ")", false: "uses neither constant.Sign nor constant.Compare"}[len(machine) > 0]+": a non-zero divisor below the smallest float64 underflows to 0 and the valid constant expression 1e-390 / 1e-400 is rejected")
 	}
 }
 
